@@ -11,6 +11,8 @@ func init() {
 			c.WatermarkGuards("C01", s, "att")
 			c.WatermarkConversions("C01", s, "att")
 			c.RecordBeforeApprove("C01", s, "att")
+			c.EntryAlignment("C01", s, "att")
+			c.RulerLocking("C01")
 			c.StoreCommit("C03", s)
 		},
 		Explanation: "Structural obligations whose conjunction implies that a stored attestation watermark (S,T) bounds every released attestation and that a new one is approved only if it neither double-votes nor surrounds/is surrounded: see DESIGN.md §5 C01.",
